@@ -39,9 +39,44 @@ impl SignatureConverter<'_> {
         self.remove_generic_type_params(&mut entrait_sig.sig);
         tidy_generics(&mut entrait_sig.sig.generics);
 
+        if let FnDeps::Generic {
+            generic_param: Some(deps_param),
+            ..
+        } = self.deps
+        {
+            use syn::visit_mut::VisitMut;
+            let mut to_self = super::DepsParamToSelf(deps_param, false);
+            to_self.visit_signature_mut(&mut entrait_sig.sig);
+
+            // the type parameter was `Sized` (unless it said otherwise), `Self` is not:
+            if to_self.1 && !self.deps_param_is_maybe_sized(deps_param) {
+                entrait_sig
+                    .sig
+                    .generics
+                    .make_where_clause()
+                    .predicates
+                    .push(syn::parse_quote! { Self: Sized });
+            }
+        }
+
         fn_params::fix_fn_param_idents(&mut entrait_sig.sig);
 
         entrait_sig
+    }
+
+    fn deps_param_is_maybe_sized(&self, deps_param: &syn::Ident) -> bool {
+        self.input_sig.generics.type_params().any(|type_param| {
+            type_param.ident == *deps_param
+                && type_param.bounds.iter().any(|bound| {
+                    matches!(
+                        bound,
+                        syn::TypeParamBound::Trait(syn::TraitBound {
+                            modifier: syn::TraitBoundModifier::Maybe(_),
+                            ..
+                        })
+                    )
+                })
+        })
     }
 
     fn detect_receiver_generation(&self, sig: &syn::Signature) -> ReceiverGeneration {
